@@ -7,6 +7,7 @@ import (
 	"fmt"
 	"log/slog"
 	"runtime"
+	"sync"
 	"time"
 
 	"github.com/goblimey/go-ntrip/rtcm/handler"
@@ -124,6 +125,69 @@ func timedStalls(c *child.Ctx) []time.Duration {
 	return []time.Duration{300 * time.Millisecond, 1200 * time.Millisecond}
 }
 
+// runSideBySide runs one stream handler per stream, all at the same time, each on its
+// own unbuffered channels with its own producer and consumer; it returns what each
+// delivered.  Handlers in one process (the proxy's connections, a test harness) share
+// nothing that a user can see.
+func runSideBySide(streams [][]byte, seed uint64) [][]handler.Message {
+	out := make([][]handler.Message, len(streams))
+	var wg sync.WaitGroup
+	for i := range streams {
+		wg.Add(1)
+		go func(i int) {
+			defer wg.Done()
+			in := make(chan byte)
+			ch := make(chan handler.Message)
+			h := handler.New(fixedStart, slog.LevelInfo)
+			go h.HandleMessages(in, ch)
+			go func() {
+				pr := ref.NewRand(seed + uint64(i)*977)
+				for _, b := range streams[i] {
+					if pr.Chance(1, 7) {
+						runtime.Gosched()
+					}
+					in <- b
+				}
+				close(in)
+			}()
+			for m := range ch {
+				out[i] = append(out[i], m)
+				tick()
+			}
+		}(i)
+	}
+	done := make(chan struct{})
+	go func() { wg.Wait(); close(done) }()
+	waitOrHang(done, caseWatchdog, "stream handlers running side by side did not finish")
+	return out
+}
+
+// execSideBySide: every stream handled next to the others must come out as it does
+// when it is handled alone.
+func execSideBySide(c *child.Ctx, k streamCase, cj []byte, sig string) [][]handler.Message {
+	var streams [][]byte
+	for _, h := range k.SideBySide {
+		streams = append(streams, unhex(h))
+	}
+	got := runSideBySide(streams, k.HookSeed)
+	for j := range got {
+		alone := runSequential(fixedStart, slog.LevelInfo, streams[j])
+		bad := len(alone) != len(got[j])
+		for i := 0; !bad && i < len(alone); i++ {
+			if alone[i].MessageType != got[j][i].MessageType || !bytes.Equal(alone[i].RawData, got[j][i].RawData) {
+				bad = true
+			}
+		}
+		if bad {
+			c.Violate(sig, fmt.Sprintf("stream %d of %d handled at the same time by separate handlers is delivered differently from the same stream handled alone: side by side%s; alone%s",
+				j+1, len(streams), describeMsgs(got[j], 8), describeMsgs(alone, 8)), cj)
+			break
+		}
+	}
+	c.Count("streams_handled_side_by_side", int64(len(streams)))
+	return got
+}
+
 // onceStalls are the lengths of a single long hold-up (one write, one consumer):
 // longer than the timers a "watchdog" would plausibly use.
 func onceStalls(c *child.Ctx) []time.Duration {
@@ -212,6 +276,8 @@ type streamCase struct {
 	OnceAt      int   `json:"before_delivery,omitempty"`
 	// a second stream processed by the same handler afterwards
 	Second string `json:"second_stream_same_handler,omitempty"`
+	// streams handled at the same time, each by its own handler
+	SideBySide []string `json:"streams_side_by_side,omitempty"`
 	// direct call (C01)
 	Direct bool `json:"direct,omitempty"`
 	// bytes the same handler processed as a stream before the direct call
@@ -282,6 +348,18 @@ func execC01Stream(c *child.Ctx, k streamCase, cj []byte) {
 	for i := range msgs {
 		if why := checkTyped(&msgs[i]); why != "" {
 			c.Violate("typed-message-not-a-frame", "stream handler: "+why, cj)
+		} else if msgs[i].MessageType >= 0 && (len(msgs[i].RawData) > 500 || i%4 == 0) {
+			// what a consumer holds is still that frame after another consumer (the display
+			// log, the status report) has displayed its copy: the copies share the bytes
+			cp := msgs[i]
+			func() {
+				defer func() { recover() }() // crashes belong to C07
+				_ = cp.String()
+			}()
+			if why := checkTyped(&msgs[i]); why != "" {
+				c.Violate("typed-message-not-a-frame", "stream handler, after a copy of the message was displayed: "+why, cj)
+			}
+			c.Count("typed_messages_rechecked_after_display", 1)
 		}
 		if msgs[i].MessageType >= 0 {
 			typed++
@@ -549,6 +627,31 @@ func monC01(c *child.Ctx, replay json.RawMessage) {
 		cj := c.BeginV(k)
 		execC01Reused(c, r, f.Bytes, cj)
 	}
+	// long sessions in which most frames are damaged: one handler, thousands of CRC
+	// failures, and still nothing but valid frames is ever typed
+	if c.Batch < 2 || c.Thorough() {
+		var in []byte
+		nd := 0
+		for j := r.Range(1500, 3000); j > 0; j-- {
+			var f gen.Seg
+			for {
+				f = gen.RandFrame(r)
+				if len(f.Bytes) <= 40 {
+					break
+				}
+			}
+			b := append([]byte(nil), f.Bytes...)
+			if !r.Chance(1, 8) {
+				b[r.Range(3, len(b)-1)] ^= byte(1 << uint(r.Intn(8)))
+				nd++
+			}
+			in = append(in, b...)
+		}
+		k := streamCase{Input: hexs(in), Note: fmt.Sprintf("one session with %d damaged frames", nd)}
+		cj := c.BeginV(k)
+		execC01Stream(c, k, cj)
+		c.Count("damaged_frames_in_long_sessions", int64(nd))
+	}
 	// single-frame decoding on a handler that has processed a stream before - in
 	// particular one that ended inside the leader, the body or the CRC of a frame of
 	// the same size as the candidate
@@ -671,6 +774,13 @@ func monC03(c *child.Ctx, replay json.RawMessage) {
 		var k streamCase
 		json.Unmarshal(replay, &k)
 		c.Begin(replay)
+		if len(k.SideBySide) > 0 {
+			for i := 0; i < 100 && c.NViolations() == 0; i++ {
+				k.HookSeed++
+				execSideBySide(c, k, replay, "sequence-mismatch")
+			}
+			return
+		}
 		if k.StallMs > 0 {
 			execTimedCase(c, k, replay, "sequence-mismatch")
 			return
@@ -730,6 +840,41 @@ func monC03(c *child.Ctx, replay json.RawMessage) {
 	if ob := c.NBatch - 1 - c.Batch; ob < len(onceStalls(c)) {
 		st := gen.Stream{gen.RandFrame(r), gen.Junk(r), gen.RandFrame(r), gen.RandFrame(r), gen.RandFrame(r), gen.Junk(r)}
 		execHeldUpOnce(c, st, st.ExpectedClean(), onceStalls(c)[ob], r.Intn(3), []int{0, 1, 2}[r.Intn(3)], "sequence-mismatch")
+		// and the source falls silent once, for as long, in the middle of a frame
+		off := len(st[0].Bytes) + len(st[1].Bytes)
+		k := streamCase{Input: hexs(st.Bytes()), Expect: toExp(st.ExpectedClean()), StallMs: onceStalls(c)[ob].Milliseconds(), PauseAt: []int{off + len(st[2].Bytes)/2},
+			Note: fmt.Sprintf("the source falls silent for %v once, in the middle of a frame", onceStalls(c)[ob])}
+		cj := c.BeginV(k)
+		execTimedCase(c, k, cj, "sequence-mismatch")
+		c.Eval(ref.Hash64(st.Bytes(), []byte(k.Note)), true)
+	}
+	// several handlers at the same time, each on its own stream
+	nside := c.Share(c.Pick(400, 8000))
+	for i := 0; i < nside; i++ {
+		n := r.Range(2, 4)
+		var streams [][]byte
+		var sts []gen.Stream
+		for j := 0; j < n; j++ {
+			st := gen.CleanStream(r, gen.CleanOpts{MinFrames: 2, MaxFrames: 6, TruncTail: true})
+			if len(st.Bytes()) > 3000 {
+				st = gen.CleanStream(r, gen.CleanOpts{MinFrames: 2, MaxFrames: 4, SmallFrames: true})
+			}
+			sts = append(sts, st)
+			streams = append(streams, st.Bytes())
+		}
+		k := streamCase{HookSeed: r.Uint64() >> 1}
+		for _, b := range streams {
+			k.SideBySide = append(k.SideBySide, hexs(b))
+		}
+		cj := c.BeginV(k)
+		got := execSideBySide(c, k, cj, "sequence-mismatch")
+		for j := range got {
+			if why := compareSeq(got[j], toExp(sts[j].ExpectedClean())); why != "" && c.NViolations() == 0 {
+				c.Violate("sequence-mismatch", fmt.Sprintf("stream %d of %d handled at the same time by separate handlers: %s", j+1, n, why), cj)
+				break
+			}
+		}
+		c.Eval(ref.Hash64(cj), true)
 	}
 	// long sessions: hundreds of junk-then-frame transitions in one stream
 	nLong := c.Pick(2, 6)
@@ -831,6 +976,20 @@ func monC12(c *child.Ctx, replay json.RawMessage) {
 		var k streamCase
 		json.Unmarshal(replay, &k)
 		c.Begin(replay)
+		if len(k.SideBySide) > 0 {
+			for i := 0; i < 100 && c.NViolations() == 0; i++ {
+				k.HookSeed++
+				execSideBySide(c, k, replay, "corruption-disturbs-neighbour")
+			}
+			return
+		}
+		if k.Direct {
+			h := handler.New(fixedStart, slog.LevelInfo)
+			if m, err := h.GetMessage(unhex(k.Input)); m != nil && m.MessageType >= 0 && err == nil && !ref.IsFrame(unhex(k.Input)) {
+				c.Violate("corruption-not-contained", fmt.Sprintf("a damaged frame is accepted by single-frame decoding as a valid type %d message", m.MessageType), replay)
+			}
+			return
+		}
 		if k.StallMs > 0 {
 			execTimedCase(c, k, replay, "corruption-not-contained")
 			return
@@ -1112,6 +1271,67 @@ func monC12(c *child.Ctx, replay json.RawMessage) {
 		}
 		c.Count("short_victim_streams", 1)
 	}
+	// the three CRC bytes: every other value of each pair of them (2 x 65 535 per victim),
+	// through single-frame decoding - a weakened comparison accepts some of them
+	if c.Batch < 3 || c.Thorough() {
+		var vf gen.Seg
+		for {
+			vf = gen.RandFrame(r)
+			if len(vf.Bytes) >= 9 && len(vf.Bytes) <= 40 && (c.Batch%3 != 0 || vf.Bytes[len(vf.Bytes)-3] < 0x10 || vf.Bytes[len(vf.Bytes)-2] < 0x10 || vf.Bytes[len(vf.Bytes)-1] < 0x10) {
+				break
+			}
+		}
+		n := len(vf.Bytes)
+		h := handler.New(fixedStart, slog.LevelInfo)
+		g := append([]byte(nil), vf.Bytes...)
+		for pair := 0; pair < 2 && c.NViolations() == 0; pair++ {
+			for v := 0; v < 65536 && c.NViolations() == 0; v++ {
+				copy(g, vf.Bytes)
+				g[n-3+pair], g[n-2+pair] = byte(v>>8), byte(v)
+				if bytes.Equal(g, vf.Bytes) {
+					continue
+				}
+				var m *handler.Message
+				var err error
+				func() {
+					defer func() { recover() }()
+					m, err = h.GetMessage(g)
+				}()
+				if m != nil && m.MessageType >= 0 && err == nil {
+					k := streamCase{Input: hexs(g), Direct: true, Note: "CRC bytes overwritten"}
+					cj, _ := json.Marshal(k)
+					c.Violate("corruption-not-contained", fmt.Sprintf("a frame whose CRC bytes %x were overwritten with %x is accepted by single-frame decoding as a valid type %d message", vf.Bytes[n-3:], g[n-3:], m.MessageType), cj)
+				}
+				if v%4096 == 0 {
+					tick()
+				}
+			}
+		}
+		c.Count("crc_byte_pairs_swept", 2*65535)
+		c.EvalN(1)
+	}
+	// several handlers at the same time, each with damaged frames in its stream
+	nsideD := c.Share(c.Pick(400, 8000))
+	for i := 0; i < nsideD; i++ {
+		k := streamCase{HookSeed: r.Uint64() >> 1}
+		for j := r.Range(2, 6); j > 0; j-- {
+			var b []byte
+			for f := r.Range(2, 6); f > 0; f-- {
+				fb := append([]byte(nil), gen.RandFrame(r).Bytes...)
+				if len(fb) > 300 {
+					continue
+				}
+				if r.Chance(2, 3) {
+					fb[r.Range(3, len(fb)-1)] ^= byte(1 + r.Intn(255))
+				}
+				b = append(b, fb...)
+			}
+			k.SideBySide = append(k.SideBySide, hexs(b))
+		}
+		cj := c.BeginV(k)
+		execSideBySide(c, k, cj, "corruption-disturbs-neighbour")
+		c.Eval(ref.Hash64(cj), true)
+	}
 	// a slow consumer / an input that falls silent: the damaged frame is still delivered
 	// whole and alone
 	stalls := timedStalls(c)
@@ -1359,6 +1579,13 @@ func monC02(c *child.Ctx, replay json.RawMessage) {
 			execC02Second(c, k, replay)
 			return
 		}
+		if len(k.SideBySide) > 0 {
+			for i := 0; i < 100 && c.NViolations() == 0; i++ {
+				k.HookSeed++
+				execSideBySide(c, k, replay, "not-lossless")
+			}
+			return
+		}
 		if k.StallMs > 0 {
 			execC02Timed(c, k, replay)
 			return
@@ -1506,6 +1733,24 @@ func monC02(c *child.Ctx, replay json.RawMessage) {
 		cj := c.BeginV(k)
 		execC02Timed(c, k, cj)
 		c.Count("held_up_once_runs", 1)
+		c.Eval(ref.Hash64(cj), true)
+	}
+	// several handlers at the same time, each on its own hostile stream
+	nside := c.Share(c.Pick(800, 16000))
+	for i := 0; i < nside; i++ {
+		k := streamCase{HookSeed: r.Uint64() >> 1}
+		for j := r.Range(2, 4); j > 0; j-- {
+			b := gen.HostileStream(r, false).Bytes()
+			if len(b) > 3000 {
+				b = b[:3000]
+			}
+			if i%2 == 0 {
+				b = append(gen.Junk(r).Bytes, b...)
+			}
+			k.SideBySide = append(k.SideBySide, hexs(b))
+		}
+		cj := c.BeginV(k)
+		execSideBySide(c, k, cj, "not-lossless")
 		c.Eval(ref.Hash64(cj), true)
 	}
 	// a handler that is given a second stream after the first has ended - complete, or
